@@ -34,6 +34,10 @@ func pureDelegation(fn *ssa.Function) *delegation {
 		for _, ins := range b.Instrs {
 			switch x := ins.(type) {
 			case *ssa.Call:
+				// calls of pure field getters are argument expressions, not the delegation
+				if isPureGetterCall(x) {
+					continue
+				}
 				calls = append(calls, x)
 			case *ssa.Return:
 				rets = append(rets, x)
@@ -50,6 +54,23 @@ func pureDelegation(fn *ssa.Function) *delegation {
 		return nil
 	}
 	return &delegation{callee: callee, call: calls[0]}
+}
+
+func isPureGetterCall(x *ssa.Call) bool {
+	callee := x.Common().StaticCallee()
+	if callee == nil || callee.Signature.Recv() == nil || len(x.Common().Args) != 1 || len(callee.Blocks) != 1 {
+		return false
+	}
+	for _, ins := range callee.Blocks[0].Instrs {
+		if ret, isRet := ins.(*ssa.Return); isRet && len(ret.Results) == 1 {
+			if ld, isLd := ret.Results[0].(*ssa.UnOp); isLd && ld.Op == token.MUL {
+				if fa, isFA := ld.X.(*ssa.FieldAddr); isFA && fa.X == ssa.Value(callee.Params[0]) {
+					return true
+				}
+			}
+		}
+	}
+	return false
 }
 
 // ---------- R11.1 sibling input signatures ----------
